@@ -66,6 +66,9 @@ def ins_corpus(tier, seed):
                  run_again=1),
         ins_spec("gauss2", s + 6, 100, stopping_criterion=["ratio_ns", "ratio_all"], tolerance=[-0.5, 1.0],
                  check_criteria="all", min_iteration=2, max_iteration=7, draw_iid_live=False),
+        # unnormalised likelihood (ln Z ~ -700): the criteria must still equal their definitions
+        ins_spec("offlow2", s + 7, 100, stopping_criterion=["fractional_error", "Z_err", "ess"],
+                 tolerance=[0.05, 1.05, -1.0], check_criteria="any", max_iteration=5),
     ]
     if tier == "thorough":
         import itertools
